@@ -17,9 +17,9 @@ func (c14) Technique() string {
 }
 func (c14) Runs(tier string) int {
 	if tier == "thorough" {
-		return 2000000
+		return 7500000
 	}
-	return 120000
+	return 500000
 }
 func (c14) Rule() string {
 	return "sequential (75%): 3-25 ops on a Stack (every kind, capacity none or 1-6) and a Condition: install/remove of push, validity, presentation, equality, marshal, unmarshal, less, evaluator closures whose verdicts come from the fault plan; Push batches; Valid/String/IsEqual/Marshal/Unmarshal/Less/Evaluate; every accepted element mirrored into a closure-free twin that supplies the built-in answers. concurrent (25%): a Push batch with a rejecting policy on a mutex-enabled stack while another task queries and pops; the rejected value must never be visible at any scheduler step. non-trivial = a consulted rejection mid-batch with room left, or a closure result observed and later the default restored; distinct = hash(op sequence, verdict pattern / schedule)"
